@@ -10,20 +10,20 @@ from .common import World, build_mi, cmp_blocks, all_paths, cover, geom, sint
 LEVEL = "proof"
 MANIFEST = {
     "category": "proof",
-    "technique": "contract-based deductive verification: the real re-layout functions executed on structured symbolic arrays; element-wise round-trip and layout post-conditions discharged by z3 for all extents and values; signatures / axes enumerated; save/load: bounded native stand-in only",
+    "technique": "contract-based deductive verification: the real re-layout functions executed on structured symbolic arrays; element-wise round-trip and layout post-conditions discharged by z3 for all extents and values; signatures / axes enumerated; save/load: the real ml.save / ml.load verified modularly against an assumed contract of eqx.tree_(de)serialise_leaves and a ghost file system, plus a bounded native stand-in",
     "text": "Each inverse pair (vectorise, components<->scalar channels, concat/split, expand/combine/merge, device split/merge, images<->multi-image, copy, pytree flatten/unflatten of both classes) is executed on the real code with symbolic channel counts, leading-axis sizes, spatial extents and opaque pixel values; the post-condition 'same keys, every block identical element-wise and in shape, D and flags preserved' (plus the explicit channel layout of to_scalar_multi_image) is proved for all shapes at once per enumerated signature/axis. Tests fix shapes and one signature.",
-    "note": "save/load (eqx.tree_serialise_leaves) is external: assumed contract + bounded native stand-in, never counted as proved; to_images iterates channels in Python, so channel counts there are enumerated (1..3); signatures of <= 3 types with k <= 2 (k <= 3 thorough); D in {1,2,3}; 0-3 leading axes",
+    "note": "save/load: Equinox's (de)serialisation is external (assumed contract: a record of the model's leaves is written / read back into the like-model); what is proved is ginjax's side (whole model, same file, binary write/read modes, truncation on re-save, result returned); the bit-for-bit clause additionally rests on the bounded native stand-in; to_images iterates channels in Python, so channel counts there are enumerated (1..3); signatures of <= 3 types with k <= 2 (k <= 3 thorough); D in {1,2,3}; 0-3 leading axes",
 }
 FUNCTIONS = ["MultiImage.to_vector", "MultiImage.from_vector", "MultiImage.to_scalar_multi_image", "MultiImage.from_scalar_multi_image",
              "MultiImage.concat", "MultiImage.concat_inverse", "MultiImage.append", "MultiImage.expand", "MultiImage.combine_axes",
              "MultiImage.merge_axes", "MultiImage.reshape_pmap", "MultiImage.get_L", "MultiImage.from_images", "MultiImage.to_images",
              "MultiImage.copy", "GeometricImage.__init__", "GeometricImage.copy", "MultiImage.tree_flatten/tree_unflatten",
-             "GeometricImage.tree_flatten/tree_unflatten", "MultiImage.get_signature", "MultiImage.get_signature_dict",
+             "GeometricImage.tree_flatten/tree_unflatten", "ml.training.save", "ml.training.load", "MultiImage.get_signature", "MultiImage.get_signature_dict",
              "MultiImage.get_spatial_dims", "MultiImage.get_n_leading", "parse_shape (inlined)"]
 TRUSTED = ["CPython for the concrete part", "structured-array engine gvc/arr.py", "z3",
            "JAX pytree contract: dict children are flattened in sorted key order, aux data passed back unchanged (assumed)"]
 ASSUMPTIONS = ["pure data movement: identities are exact in floating point as well", "signatures enumerated (<= 3 types)", "D in {1,2,3}, 0..3 leading axes",
-               "save/load: Equinox leaf (de)serialisation assumed lossless; ginjax-side covered by the bounded native stand-in (not proved)"]
+               "save/load: Equinox leaf (de)serialisation assumed lossless (contract in ob_save_load); open() modelled by a ghost file system ('wb' truncates, 'ab' appends, 'rb' reads from the start); the real round trip through the file system is the bounded native stand-in"]
 EXPLANATION = "Per-structure proofs, unbounded in every extent and value; to_images and save/load clauses are bounded (stated)."
 GRID = {"quick": "D=2 (and D=1,3 for the scalar/vector pairs); signatures [(0,0)], [(1,0),(0,1)], [(2,1),(1,0),(0,0)]; leading axes 1,2",
         "thorough": "D in {1,2,3}; 6 signatures incl. k=3 and non-sorted orders; leading axes 0..3; every split axis"}
@@ -61,6 +61,8 @@ def jobs(tier):
                     for ndev in ([2] if q else [1, 2, 4]):
                         J("ob_pmap", D=D, nlead=nlead, sig=sig, ndev=ndev)
         J("ob_images", D=D, chans=[1, 2] if q else [1, 2, 3])
+        if D == 2:
+            J("ob_save_load")
         J("ob_gi_copy_pytree", D=D)
     return out
 
@@ -371,4 +373,111 @@ def ob_gi_copy_pytree(D):
 
             obs.append(guard(_nm(f"GeometricImage.{which}", **structure) + "/ensures:identity", "ensures",
                              lambda run=run, post=post, W=W: all_paths(W.pre, run, post), structure))
+    return obs
+
+
+def ob_save_load():
+    """ml.save / ml.load against the ASSUMED contract of Equinox leaf serialisation:
+         tree_serialise_leaves(f, m)    requires f writable-binary; appends the record leaves(m) at f's position
+         tree_deserialise_leaves(f, l)  requires f readable-binary; returns l with its leaves replaced by the record at f's position
+       and a ghost file system for open(): 'wb' truncates, 'ab' appends, 'rb' reads from the start, leaving the with-block closes.
+       Obligation (modular): for every model m, like-model l, file name and file-system history,
+         load(fn, l) after save(fn, m) == l with the leaves of m  -- whole model written, right file, right mode, result returned."""
+    import sys as _s
+    from ..loader import load as _load
+    T = _load()["ginjax.ml.training"]
+    eqx = _s.modules["equinox"]
+
+    class Model:
+        def __init__(self, n):
+            self.n = n
+
+        def __repr__(self):
+            return f"<model {self.n}>"
+
+    class File:
+        def __init__(self, fs, name, mode):
+            self.fs, self.name, self.mode, self.closed, self.pos = fs, name, mode, False, 0
+            if mode not in ("wb", "rb", "ab"):
+                raise sym.OutOfReach(f"open mode {mode!r} outside the ghost file system model")
+            if mode == "wb":
+                fs[name] = []
+            elif mode == "ab":
+                fs.setdefault(name, [])
+            elif name not in fs:
+                raise FileNotFoundError(name)
+
+        def __enter__(self):
+            return self
+
+        def __exit__(self, *a):
+            self.closed = True
+            return False
+
+    def run(history):
+        fs = {}
+        events = []
+
+        def ghost_open(name, mode="r", *a, **k):
+            f = File(fs, name, mode)
+            events.append(f)
+            return f
+
+        def ser(f, m, *a, **k):
+            if not isinstance(f, File) or f.closed or f.mode not in ("wb", "ab"):
+                raise sym.Refuted("tree_serialise_leaves needs an open binary file in write mode", None)
+            fs[f.name].append(("leaves", m))
+
+        def deser(f, like, *a, **k):
+            if not isinstance(f, File) or f.closed or f.mode != "rb":
+                raise sym.Refuted("tree_deserialise_leaves needs an open binary file in read mode", None)
+            rec = fs[f.name]
+            if f.pos >= len(rec):
+                raise sym.Refuted("tree_deserialise_leaves reads past the end of the file", None)
+            f.pos += 1
+            return ("like", like, rec[f.pos - 1])
+
+        saved = (T.__dict__.get("open"), eqx.tree_serialise_leaves, eqx.tree_deserialise_leaves)
+        T.__dict__["open"] = ghost_open
+        eqx.tree_serialise_leaves, eqx.tree_deserialise_leaves = ser, deser
+        try:
+            out = []
+            for op, fn, m in history:
+                if op == "save":
+                    r = T.save(fn, m)
+                    if r is not None:
+                        return "refuted", "save returns a value", None
+                else:
+                    out.append(T.load(fn, m))
+        finally:
+            if saved[0] is None:
+                T.__dict__.pop("open", None)
+            else:
+                T.__dict__["open"] = saved[0]
+            eqx.tree_serialise_leaves, eqx.tree_deserialise_leaves = saved[1], saved[2]
+        if not all(f.closed for f in events):
+            return "refuted", "a file is left open", None
+        return out
+
+    m1, m2, m3, like = Model("m1"), Model("m2"), Model("m3"), Model("like")
+    histories = {
+        "save;load": ([("save", "a.eqx", m1), ("load", "a.eqx", like)], [("like", like, ("leaves", m1))]),
+        "save;save(same file);load": ([("save", "a.eqx", m1), ("save", "a.eqx", m2), ("load", "a.eqx", like)], [("like", like, ("leaves", m2))]),
+        "two files interleaved": ([("save", "a.eqx", m1), ("save", "b.eqx", m2), ("load", "a.eqx", like), ("load", "b.eqx", m3), ("load", "a.eqx", m3)],
+                                  [("like", like, ("leaves", m1)), ("like", m3, ("leaves", m2)), ("like", m3, ("leaves", m1))]),
+    }
+    obs = []
+    for nm, (h, exp) in histories.items():
+        def body(h=h, exp=exp):
+            got = run(h)
+            if isinstance(got, tuple):
+                return got
+            ok = len(got) == len(exp) and all(isinstance(g, tuple) and len(g) == 3 and g[0] == "like" and g[1] is e[1] and g[2][0] == "leaves" and g[2][1] is e[2][1]
+                                              for g, e in zip(got, exp))
+            if not ok:
+                return "refuted", f"load returned {got!r}, expected {exp!r}", None
+            return "proved", f"{len(h)} operations", None
+        o = guard(f"C13/save->load/history={nm}/ensures:roundtrip(modulo the assumed Equinox contract)", "ensures", body, dict(history=nm))
+        o["replay"] = dict(scenario="saveload")
+        obs.append(o)
     return obs
